@@ -113,7 +113,11 @@ class C17(core.Check):
         # (a) size_to_qty: cost, one step
         witnesses = [(w['capital'], w['price'], w['precision'], w['fee_rate']) for w in
                      (k['witness'] for k in core.load_known() if k['property'] == 'C17') if w.get('fn') == 'size_to_qty']
-        for (cap, price, prec, fee) in witnesses + self.sizing_inputs(n):
+        # exact quotients at fee 0: the sized order costs EXACTLY the capital — the boundary of "never more than the capital" on
+        # the account's side (a fresh account holding that capital must accept it)
+        exact = [(10000.0, 50.0, 3, 0), (1000.0, 250.0, 3, 0), (512.0, 0.5, 2, 0), (100.0, 100.0, 0, 0), (7500.0, 2.5, 1, 0),
+                 (64.0, 0.25, 0, 0)]
+        for (cap, price, prec, fee) in witnesses + exact + self.sizing_inputs(n):
             inp = {'fn': 'size_to_qty', 'capital': cap, 'price': price, 'precision': prec, 'fee_rate': fee}
             try:
                 q = utils.size_to_qty(cap, price, precision=prec, fee_rate=fee)
@@ -246,7 +250,11 @@ class C17(core.Check):
         import acct
         witnesses = [(w['capital'], w['price'], w['precision'], w['fee_rate']) for w in
                      (k['witness'] for k in core.load_known() if k['property'] == 'C17') if w.get('fn') == 'size_to_qty+submit']
-        for (cap, price, prec, fee) in witnesses + self.sizing_inputs(n):
+        # exact quotients at fee 0: the sized order costs EXACTLY the capital — the boundary of "never more than the capital" on
+        # the account's side (a fresh account holding that capital must accept it)
+        exact = [(10000.0, 50.0, 3, 0), (1000.0, 250.0, 3, 0), (512.0, 0.5, 2, 0), (100.0, 100.0, 0, 0), (7500.0, 2.5, 1, 0),
+                 (64.0, 0.25, 0, 0)]
+        for (cap, price, prec, fee) in witnesses + exact + self.sizing_inputs(n):
             q = utils.size_to_qty(cap, price, precision=prec, fee_rate=fee)
             if q <= 0:
                 continue
@@ -261,7 +269,7 @@ class C17(core.Check):
                     cost = q * price
                     res.fail(**{'class': f'size_to_qty/rejected-by-fresh-{kind}-account', 'input': inp, 'observed': verdict,
                                 'expected': 'accepted', 'params': {'fee_rate': fee},
-                                'metrics': {'rel_excess': (cost - cap) / cap}})
+                                'metrics': {'rel_excess': (cost - cap) / cap, 'float_overspend': 1 if cost > cap else 0}})
 
     def replay(self, doc):
         print(doc['failure'])
